@@ -115,12 +115,35 @@ def run(R):
         for k in kinds:
             gb = ty.body(re.compile(r'<generated::google_rpc::Status as richer_error::RpcStatusExt>::get_details_%s$' % field_of[k]))
             R.saw(gb)
-            rows = [r for r in mirlib.str_eq_chain(gb) if isinstance(r['value'], str)]
-            fa = [self_kind(t) for bb, t in gb.calls(name='from_any_ref')]
-            R.check(len(rows) == 1 and urls.get(rows[0]['value']) == k and fa == [k], 'C20.R1', 'getter:%s' % k, site(gb), 'get_details_%s matches %r and decodes %r' % (field_of[k], rows[0]['value'] if rows else None, fa))
+            # the URL the getter compares type_url with, and the kind it decodes — in the getter itself or in the closures it
+            # hands to iterator adaptors (possibly written in a generic helper: T is then the helper's type argument at this call)
+            gfam = family(ty, gb)
+            gen_arg = {}
+            for m_ in gfam:
+                for bb_, i_, p_, a_, ops_ in mirlib.aggregates(m_):
+                    if a_.get('kind') == 'closure' and a_.get('inl_ga') and a_.get('def'):
+                        gen_arg[a_['def']] = [g_.rsplit('::', 1)[-1] for g_ in a_['inl_ga']]
+            cmp_urls = [r['value'] for r in mirlib.str_eq_chain(gb) if isinstance(r['value'], str)]
+            fa = []
+            for m_ in gfam:
+                for bb_, t_ in m_.calls(name='from_any_ref'):
+                    sk_ = self_kind(t_)
+                    if re.match(r'^[A-Z]\w?$', sk_ or '') and (m_.path in gen_arg or t_.get('inl_ga')):
+                        ga_ = gen_arg.get(m_.path) or [g_.rsplit('::', 1)[-1] for g_ in t_['inl_ga']]
+                        sk_ = ga_[0] if len(ga_) == 1 else sk_
+                    fa.append(sk_)
+                if m_ is not gb:
+                    for bb_, t_ in m_.calls(name='eq') + m_.calls(name='ne'):
+                        sides = [m_.origin(a_) for a_ in t_['args']]
+                        if any(mentions_field(x_, 'type_url') for x_ in sides):
+                            for x_ in sides:
+                                v_ = const_value(ty, resolve_env(ty, m_, x_, within=gfam))
+                                if isinstance(v_, str):
+                                    cmp_urls.append(v_)
+            R.check(len(cmp_urls) == 1 and urls.get(cmp_urls[0]) == k and fa == [k], 'C20.R1', 'getter:%s' % k, site(gb), 'get_details_%s matches %r and decodes %r' % (field_of[k], cmp_urls, fa))
             st = ty.body(re.compile(r'<tonic::Status as richer_error::StatusExt>::get_details_%s$' % field_of[k]))
             inner = [t for bb, t in st.calls(name='get_details_%s' % field_of[k])]
-            R.check(len(inner) == 1 and len(st.calls(name='decode')) == 1, 'C20.R1', 'status-getter:%s' % k, site(st), 'Status::get_details_%s decodes pb::Status and delegates' % field_of[k])
+            R.check(len(inner) == 1 and len(fam_calls(family(ty, st), name='decode')) == 1, 'C20.R1', 'status-getter:%s' % k, site(st), 'Status::get_details_%s decodes pb::Status and delegates' % field_of[k])
         # (g) From<T> for ErrorDetail
         for k in kinds:
             fb = [b for b in ty.bodies if re.search(r'<richer_error::error_details::vec::ErrorDetail as std::convert::From<richer_error::std_messages::\w+::%s>>::from$' % k, b.path)]
